@@ -147,8 +147,6 @@ def oor_known_class(plat, case):
     ps = lambda b, s_: s_ if bits(plat, b) >= bits(plat, "i") else "s"
     if pb(vt[1]) == pb(ct[0]) and pr(vt[1]) != pr(ct[0]) and ps(vt[1], vt[2]) != ps(ct[0], ct[1]):
         return "oor-equal-size-different-rank"
-    if vt[2] == "s" and vt[1] != "b" and ct[1] == "u" and bits(plat, ct[0]) >= max(bits(plat, vt[1]), bits(plat, "i")):
-        return "oor-signed-operand-converted-to-unsigned"
     return None
 
 
@@ -176,7 +174,7 @@ def run_mask(run, model, cases, work):
     for f in vc.cppcheck_findings(path, "unix64", enable="style", inconclusive=False):
         if f.id == "comparisonError":
             rep[f.line - 1] = vc.verdict_of_msg(f.msg)
-    ker = model_lines(model, [["mask", "1" if bop == "&" else "0", "1" if t.startswith("unsigned") else "0", op, str(c1), str(c2)]
+    ker = model_lines(model, [["mask", "1" if bop == "&" else "0", "1" if t.startswith("unsigned") else "0", "1" if cl else "0", op, str(c1), str(c2)]
                               for (bop, t, cl, op, c1, c2) in cases])
     diffs, wrong = [], []
     for i, case in enumerate(cases):
@@ -389,6 +387,23 @@ def judge(funcs, work, name, count=None):
     return stats, bad, unmapped, findings
 
 
+def corpus_funcs():
+    """fixed regression programs, one per defect class that was found here and has been repaired"""
+    from minic_gen import S, Func, var, num, bin_, un
+    P3 = c03_gen.PARAM_SETS[2]      # unsigned char a, _Bool c, int p
+    fs = []
+    for i, (op, k, inner) in enumerate([("<", 1, lambda: un("!", var("c"))), ("<", 5, lambda: un("!", var("c"))),
+                                        ("<=", 1, lambda: var("c")), ("<", 2, lambda: var("c"))]):
+        # 0804a71: a relational bound of a bool operand was negated like a point value
+        body = [S("if", c=bin_(op, var("c"), num(k)), then=[S("if", c=inner(), then=[S("return", e=num(8))], els=None)], els=None),
+                S("return", e=num(0))]
+        fs.append(Func("k%d" % i, P3, body))
+    # 16eb134: constant on the left of a bit-mask comparison
+    fs.append(Func("k4", P3, [S("if", c=bin_(">", num(8), bin_("&", var("a"), num(3))), then=[S("return", e=num(1))], els=None), S("return", e=num(0))]))
+    fs.append(Func("k5", P3, [S("if", c=bin_("<", num(2), bin_("&", var("a"), num(1))), then=[S("return", e=num(1))], els=None), S("return", e=num(0))]))
+    return fs
+
+
 def run_programs(run, nfuncs, work, name):
     import random
     gen = c03_gen.Gen(random.Random("C03-x2-%s-%s" % (run.seed, name)))
@@ -466,12 +481,6 @@ def mentions(e, name):
 def classify_program_violation(f, fn, expr):
     """map a wrong verdict to a recorded defect only when the (shrunk) program shows that defect's precondition"""
     ptype = {n: t for t, n, _ in fn.params}
-    if f.id == "comparisonError":
-        # recorded: the constant is the left operand and the operator is not mirrored
-        if expr.kind == "bin" and expr.op in ("<", "<=", ">", ">=") and not any(n.kind == "var" for n in expr.a.walk()) \
-                and expr.b.kind == "bin" and expr.b.op in "&|":
-            return "comparison-constant-on-left-not-mirrored"
-        return None
     if f.id in ("knownConditionTrueFalse", "knownArgument", "identicalInnerCondition", "oppositeInnerCondition", "incorrectLogicOperator",
                 "identicalConditionAfterEarlyExit", "multiCondition", "duplicateCondition"):
         ltype = {}
@@ -480,14 +489,6 @@ def classify_program_violation(f, fn, expr):
                 ltype[st.name] = st.type
         allt = dict(ptype)
         allt.update(ltype)
-        # (1) a _Bool operand compared relationally with a constant: insertNegateKnown negates the bound value
-        for st in walk_stmts(fn.body):
-            for e in stmt_exprs(st):
-                for n in e.walk():
-                    if n.kind == "bin" and n.op in ("<", "<=", ">", ">="):
-                        for o in (n.a, n.b):
-                            if o.kind == "var" and allt.get(o.name) == "_Bool":
-                                return "vf-bool-relational-negate-known"
         # (2) an unsigned variable changed by ++ / -- / += / -= and used in the condition: bounds move without wrap-around
         for st in walk_stmts(fn.body):
             if (st.kind == "incdec" or (st.kind == "assign" and st.op in ("+=", "-="))) and allt.get(st.name, "").startswith("unsigned") \
@@ -566,7 +567,7 @@ def check(run, replay):
         seen = set()
         for case, r, x, line in wrong:
             bop, t, cl, op, c1, c2 = case
-            key = "comparison-constant-on-left-not-mirrored" if (cl and op not in ("==", "!=")) else "mask-wrong:" + line
+            key = "mask-wrong:" + line
             if key in seen:
                 continue
             seen.add(key)
@@ -578,8 +579,12 @@ def check(run, replay):
         tot = {}
         seen_pre = set()
         shrinks = [2 if quick else 60]
-        for rd in range(rounds):
-            stats, bad, unmapped, findings = run_programs(run, per, work, "prog%d" % rd)
+        for rd in range(-1, rounds):
+            if rd < 0:
+                stats, bad, unmapped, findings = judge(corpus_funcs(), work, "corpus",
+                                                       count=lambda bucket, nt: run.count("programs", None, nontrivial=nt, bucket="corpus:" + bucket))
+            else:
+                stats, bad, unmapped, findings = run_programs(run, per, work, "prog%d" % rd)
             for k, v in stats.items():
                 tot[k] = tot.get(k, 0) + v
             for f in unmapped[:2]:
